@@ -21,10 +21,43 @@ use wf_harness::core::*;
 use wf_harness::fields::*;
 use wf_harness::oracle::*;
 use winter_air::{
-    AirContext, Assertion, AssertionError, BoundaryConstraints, ConstraintDivisor, FieldExtension, ProofOptions,
-    TraceInfo, TransitionConstraintDegree, TransitionConstraints,
+    Air, AirContext, Assertion, AssertionError, BoundaryConstraints, ConstraintDivisor, EvaluationFrame, FieldExtension,
+    ProofOptions, TraceInfo, TransitionConstraintDegree, TransitionConstraints,
 };
-use winter_math::{fields::f128, fields::f62, fields::f64, FieldElement, StarkField};
+use winter_math::{fields::f128, fields::f62, fields::f64, ExtensibleField, FieldElement, StarkField, ToElements};
+
+/// the three base fields as the `Air` trait wants them
+pub trait AFld: Fld + ExtensibleField<2> + ExtensibleField<3> {}
+impl<T: Fld + ExtensibleField<2> + ExtensibleField<3>> AFld for T {}
+
+/// minimal `Air`: only carries assertions, to reach `Air::get_boundary_constraints`
+struct TinyPub<F: AFld>(Vec<Assertion<F>>);
+impl<F: AFld> ToElements<F> for TinyPub<F> {
+    fn to_elements(&self) -> Vec<F> {
+        vec![]
+    }
+}
+struct TinyAir<F: AFld> {
+    ctx: AirContext<F>,
+    asserts: Vec<Assertion<F>>,
+}
+impl<F: AFld> Air for TinyAir<F> {
+    type BaseField = F;
+    type PublicInputs = TinyPub<F>;
+    type GkrProof = ();
+    type GkrVerifier = ();
+    fn new(ti: TraceInfo, p: TinyPub<F>, options: ProofOptions) -> Self {
+        let n = p.0.len();
+        TinyAir { ctx: AirContext::new(ti, vec![TransitionConstraintDegree::new(1)], n, options), asserts: p.0 }
+    }
+    fn context(&self) -> &AirContext<F> {
+        &self.ctx
+    }
+    fn evaluate_transition<E: FieldElement<BaseField = F>>(&self, _f: &EvaluationFrame<E>, _p: &[E], _r: &mut [E]) {}
+    fn get_assertions(&self) -> Vec<Assertion<F>> {
+        self.asserts.clone()
+    }
+}
 
 pub struct P;
 
@@ -37,8 +70,23 @@ fn hstep(acc: u128, x: u128) -> u128 {
 /// i-th asserted value for a seed (same formula in the Lean driver)
 fn val(seed: u128, i: usize) -> u128 {
     let i = i as u128;
+    if seed >= PAT {
+        // structured value patterns
+        return match seed - PAT {
+            0 => 0,                                  // all zero
+            1 => 5,                                  // constant
+            2 => 3 + 2 * (i % 2),                    // alternating 3,5
+            3 => if i == 1 { 9 } else { 0 },         // a single non-zero entry
+            4 => u64::MAX as u128,                   // beyond the modulus of the 64/62-bit fields
+            5 => if i == 0 { 0 } else { 4 },         // zero first, constant tail
+            6 => i,                                  // counter
+            _ => 1 + 4 * ((i / 2) % 2),              // runs a,a,b,b
+        };
+    }
     (seed + 1) * (i + 7) * 1000003 + i * i
 }
+const PAT: u128 = 1 << 20;
+const NPAT: u128 = 8;
 
 #[derive(Clone, Copy, Debug, PartialEq)]
 struct Desc {
@@ -523,33 +571,196 @@ fn exec_bval<F: Fld>(t: &[&str]) -> Outcome {
 }
 
 // ------------------------------------------------------------------------------ prepare + grouping
-fn exec_prep<F: Fld>(t: &[&str]) -> Outcome {
-    let n: usize = t[1].parse().unwrap();
-    let width: usize = t[2].parse().unwrap();
-    let descs: Vec<Desc> = t[3..].iter().map(|s| Desc::parse(s).unwrap()).collect();
-    // oracle: accepted iff every assertion is well-formed, fits the trace, and no two name a common cell
-    let mut expect_ok = !descs.is_empty() && n >= 8 && n.is_power_of_two() && (1..=255).contains(&width);
+/// oracle: is the list acceptable for (n, width): well-formed, in range, pairwise disjoint cells
+fn prep_expect(descs: &[Desc], n: usize, width: usize) -> (bool, Vec<(usize, usize)>) {
+    let mut ok = true;
     let mut cells: Vec<(usize, usize)> = vec![];
-    for d in &descs {
+    for d in descs {
         match d.steps(n) {
-            Some(st) if d.col < width => {
+            Some(st) if d.col < width && st.len() <= 1 << 12 => {
                 for s in st.list() {
                     if cells.contains(&(d.col, s)) {
-                        expect_ok = false;
+                        ok = false;
                     }
                     cells.push((d.col, s));
                 }
             },
-            _ => expect_ok = false,
+            Some(_) if d.col < width => {},
+            _ => ok = false,
         }
     }
+    (ok, cells)
+}
+
+/// oracle: value polynomial of an assertion at x (Lagrange interpolation through the named steps)
+fn oracle_value(d: &Desc, seed: u128, st: &Steps, g: u128, x: u128, m: u128) -> u128 {
+    if d.kind != 'q' || st.len() == 1 {
+        return val(seed, 0) % m;
+    }
+    let pts: Vec<u128> = st.list().iter().map(|s| powmod(g, *s as u128, m)).collect();
+    let mut r = 0u128;
+    for (j, pj) in pts.iter().enumerate() {
+        let (mut num, mut den) = (1u128, 1u128);
+        for (k, pk) in pts.iter().enumerate() {
+            if k != j {
+                num = mulmod(num, submod(x, *pk, m), m);
+                den = mulmod(den, submod(*pj, *pk, m), m);
+            }
+        }
+        r = addmod(r, mulmod(val(seed, j) % m, mulmod(num, invmod(den, m), m), m), m);
+    }
+    r
+}
+
+/// description of the groups of one segment + judgement of cells and merged evaluations
+fn describe_groups<F: Fld, G>(
+    o: &mut Outcome,
+    groups: &[G],
+    divisor: impl Fn(&G) -> &ConstraintDivisor<F>,
+    columns: impl Fn(&G) -> Vec<usize>,
+    evaluate: impl Fn(&G, &[F], F) -> F,
+    descs: &[(Desc, u128)], // with value seeds
+    cc0: usize,
+    n: usize,
+    width: usize,
+    tag: &str,
+) -> String {
+    let m = F::MOD;
+    let g = domain_gen::<F>(n, o);
+    let mut out = vec![];
+    let mut enforced: Vec<(usize, usize)> = vec![];
+    let state: Vec<F> = (0..width).map(|c| F::from_word(c as u128 + 11)).collect();
+    let x0 = 7u128;
+    let mut evals = vec![];
+    for grp in groups {
+        let num = divisor(grp).numerator();
+        let (k, off) = (num[0].0, num[0].1.canon());
+        let cols = columns(grp);
+        if n <= 256 {
+            let mut xo = 1u128;
+            for i in 0..n {
+                if divisor(grp).evaluate_at(F::from_word(xo)).canon() == 0 {
+                    for c in &cols {
+                        enforced.push((*c, i));
+                    }
+                }
+                xo = mulmod(xo, g, m);
+            }
+        }
+        evals.push(evaluate(grp, &state, F::from_word(x0)).canon());
+        out.push(format!("{}/{}:{}", k, off, cols.iter().map(|c| c.to_string()).collect::<Vec<_>>().join(",")));
+    }
+    if n <= 256 {
+        let (_, mut a) = prep_expect(&descs.iter().map(|d| d.0).collect::<Vec<_>>(), n, width);
+        a.sort();
+        enforced.sort();
+        if a != enforced {
+            o.fails.push((
+                format!("{}.{}.cells", F::NAME, tag),
+                format!("cells named by the assertions {:?} differ from the cells the grouped divisors vanish on {:?}", a, enforced),
+            ));
+        }
+    }
+    // merged evaluations sum_i cc_i (state[col_i] - b_i(x0)) / z(x0): assertions in natural order
+    // (stored stride, first step, column), coefficient cc0 + position + 2
+    let mut sorted: Vec<(usize, usize, usize, Desc, u128)> = descs
+        .iter()
+        .map(|(d, seed)| {
+            let stored = if d.kind == 's' || (d.kind == 'q' && d.count == 1) { 0 } else { d.stride };
+            (stored, d.first, d.col, *d, *seed)
+        })
+        .collect();
+    sorted.sort_by_key(|t| (t.0, t.1, t.2));
+    let mut exp: Vec<((usize, usize), u128, u128)> = vec![]; // key, numerator, denominator
+    for (pos, (stored, first, col, d, seed)) in sorted.iter().enumerate() {
+        let st = d.steps(n).unwrap();
+        if st.len() > 512 {
+            return format!("{} e=skipped", out.join(";"));
+        }
+        let b = oracle_value(d, *seed, &st, g, x0, m);
+        let term = mulmod(submod((*col as u128 + 11) % m, b, m), (cc0 + pos + 2) as u128 % m, m);
+        match exp.iter_mut().find(|e| e.0 == (*stored, *first)) {
+            Some(e) => e.1 = addmod(e.1, term, m),
+            None => {
+                let mut z = 1u128;
+                for s in st.list() {
+                    z = mulmod(z, submod(x0, powmod(g, s as u128, m), m), m);
+                }
+                exp.push(((*stored, *first), term, z));
+            },
+        }
+    }
+    let expv: Vec<u128> = exp.iter().map(|e| mulmod(e.1, invmod(e.2, m), m)).collect();
+    if expv != evals {
+        o.fails.push((
+            format!("{}.{}.group-eval", F::NAME, tag),
+            format!("merged group evaluations at x={} are {:?}, expected {:?}", x0, evals, expv),
+        ));
+    }
+    let mut h = 0u128;
+    for e in &evals {
+        h = hstep(h, *e);
+    }
+    format!("{} e={}", if out.is_empty() { "-".to_string() } else { out.join(";") }, h)
+}
+
+fn exec_prep<F: AFld>(t: &[&str]) -> Outcome {
+    let n: usize = t[1].parse().unwrap();
+    let pu = |s: &str| s.parse::<usize>().unwrap();
+    // prep n width descs… | prepc n width declared ncoef descs… | prepa n mainw auxw nmain descs…
+    let (width, auxw, nmain, declared, ncoef, descs): (usize, usize, usize, usize, usize, Vec<Desc>) = match t[0] {
+        "prepc" => {
+            let d: Vec<Desc> = t[5..].iter().map(|s| Desc::parse(s).unwrap()).collect();
+            (pu(t[2]), 0, d.len(), pu(t[3]), pu(t[4]), d)
+        },
+        "prepa" => {
+            let d: Vec<Desc> = t[5..].iter().map(|s| Desc::parse(s).unwrap()).collect();
+            (pu(t[2]), pu(t[3]), pu(t[4]).min(d.len()), d.len(), d.len(), d)
+        },
+        _ => {
+            let d: Vec<Desc> = t[3..].iter().map(|s| Desc::parse(s).unwrap()).collect();
+            (pu(t[2]), 0, d.len(), d.len(), d.len(), d)
+        },
+    };
+    let seeded: Vec<(Desc, u128)> = descs
+        .iter()
+        .enumerate()
+        .map(|(i, d)| (*d, if i % 3 == 2 { PAT + (i as u128 + d.first as u128) % NPAT } else { i as u128 }))
+        .collect();
+    let (main, aux) = seeded.split_at(nmain);
+    let (main_ok, _) = prep_expect(&main.iter().map(|d| d.0).collect::<Vec<_>>(), n, width);
+    let (aux_ok, _) = prep_expect(&aux.iter().map(|d| d.0).collect::<Vec<_>>(), n, auxw);
+    let shape_ok = n >= 8 && n.is_power_of_two() && width >= 1 && width + auxw <= 255 && !main.is_empty()
+        && (auxw == 0) == aux.is_empty() && declared == descs.len() && ncoef == descs.len();
+    let expect_ok = shape_ok && main_ok && aux_ok;
     let built = guarded(|| {
-        let asserts: Vec<Assertion<F>> = descs.iter().enumerate().map(|(i, d)| d.build::<F>(i as u128)).collect();
-        let ctx = AirContext::<F>::new(TraceInfo::new(width, n), vec![TransitionConstraintDegree::new(1)], descs.len(), options(2));
-        let cc: Vec<F> = (0..descs.len()).map(|_| F::ONE).collect();
-        BoundaryConstraints::<F>::new(&ctx, asserts, vec![], &cc)
+        let ma: Vec<Assertion<F>> = main.iter().map(|(d, s)| d.build::<F>(*s)).collect();
+        let aa: Vec<Assertion<F>> = aux.iter().map(|(d, s)| d.build::<F>(*s)).collect();
+        let cc: Vec<F> = (0..ncoef).map(|i| F::from_word(i as u128 + 2)).collect();
+        if t[0] == "prepa" {
+            let ti = TraceInfo::new_multi_segment(width, auxw, if auxw > 0 { 1 } else { 0 }, n, vec![]);
+            let ctx = AirContext::<F>::new_multi_segment(
+                ti,
+                vec![TransitionConstraintDegree::new(1)],
+                if auxw > 0 { vec![TransitionConstraintDegree::new(1)] } else { vec![] },
+                ma.len(),
+                aa.len(),
+                None,
+                options(2),
+            );
+            (BoundaryConstraints::<F>::new(&ctx, ma, aa, &cc), None)
+        } else if t[0] == "prepc" {
+            let ctx = AirContext::<F>::new(TraceInfo::new(width, n), vec![TransitionConstraintDegree::new(1)], declared, options(2));
+            (BoundaryConstraints::<F>::new(&ctx, ma, vec![], &cc), None)
+        } else {
+            let ctx = AirContext::<F>::new(TraceInfo::new(width, n), vec![TransitionConstraintDegree::new(1)], declared, options(2));
+            let direct = BoundaryConstraints::<F>::new(&ctx, ma.clone(), vec![], &cc);
+            // the same through the Air trait's default method
+            let air = TinyAir::<F>::new(TraceInfo::new(width, n), TinyPub(ma), options(2));
+            (direct, Some(air.get_boundary_constraints::<F>(None, &cc)))
+        }
     });
-    let bcs = match built {
+    let (bcs, via_air) = match built {
         Ok(b) => b,
         Err(info) => {
             let mut o = Outcome::ok("panic");
@@ -563,39 +774,56 @@ fn exec_prep<F: Fld>(t: &[&str]) -> Outcome {
     if !expect_ok {
         return o.fail(
             format!("{}.prep.accepts-invalid", F::NAME),
-            "an ill-formed, out-of-range or overlapping assertion set was accepted",
+            "an ill-formed, out-of-range, overlapping or miscounted assertion set was accepted",
         );
     }
-    let g = domain_gen::<F>(n, &mut o);
-    let m = F::MOD;
-    let mut out = vec![];
-    let mut enforced: Vec<(usize, usize)> = vec![];
-    for grp in bcs.main_constraints() {
-        let num = grp.divisor().numerator();
-        let (k, off) = (num[0].0, num[0].1.canon());
-        let cols: Vec<usize> = grp.constraints().iter().map(|c| c.column()).collect();
-        // zero set of the group's divisor on the trace domain
-        let mut xo = 1u128;
-        for i in 0..n {
-            if grp.divisor().evaluate_at(F::from_word(xo)).canon() == 0 {
-                for c in &cols {
-                    enforced.push((*c, i));
-                }
-            }
-            xo = mulmod(xo, g, m);
+    let ms = describe_groups::<F, _>(
+        &mut o,
+        bcs.main_constraints(),
+        |g| g.divisor(),
+        |g| g.constraints().iter().map(|c| c.column()).collect(),
+        |g, st, x| g.evaluate_at(st, x),
+        main,
+        0,
+        n,
+        width,
+        "prep",
+    );
+    if let Some(a) = via_air {
+        let mut o2 = Outcome::ok("");
+        let ms2 = describe_groups::<F, _>(
+            &mut o2,
+            a.main_constraints(),
+            |g| g.divisor(),
+            |g| g.constraints().iter().map(|c| c.column()).collect(),
+            |g, st, x| g.evaluate_at(st, x),
+            main,
+            0,
+            n,
+            width,
+            "prep",
+        );
+        if ms2 != ms {
+            o.fails.push((format!("{}.prep.air-route", F::NAME), "Air::get_boundary_constraints differs from BoundaryConstraints::new".into()));
         }
-        out.push(format!("{}/{}:{}", k, off, cols.iter().map(|c| c.to_string()).collect::<Vec<_>>().join(",")));
     }
-    let mut a = cells.clone();
-    a.sort();
-    enforced.sort();
-    if a != enforced {
-        o.fails.push((
-            format!("{}.prep.cells", F::NAME),
-            format!("cells named by the assertions {:?} differ from the cells the grouped divisors vanish on {:?}", a, enforced),
-        ));
+    if t[0] == "prepa" {
+        let xs = describe_groups::<F, _>(
+            &mut o,
+            bcs.aux_constraints(),
+            |g| g.divisor(),
+            |g| g.constraints().iter().map(|c| c.column()).collect(),
+            |g, st, x| g.evaluate_at(st, x),
+            aux,
+            main.len(),
+            n,
+            auxw.max(1),
+            "prepa",
+        );
+        o.out = format!("ok {} | {}", ms, xs);
+    } else {
+        o.out = format!("ok {}", ms);
     }
-    o.out = format!("ok {}", out.join(";"));
     o
 }
 
@@ -791,7 +1019,21 @@ fn exec_exempt(t: &[&str]) -> Outcome {
     if *d != ConstraintDivisor::<F>::from_transition(n, e) || d.degree() != n - e || d.exemptions().len() != e {
         o.fails.push(("exempt.divisor".into(), format!("n={} e={}: the context's transition divisor is not from_transition(n, e)", n, e)));
     }
-    o.out = format!("ok {} {} {}", ctx.num_transition_exemptions(), d.degree(), d.exemptions().len());
+    // the composition polynomial has degree max evalDegree - (n - e): it needs ceil((deg + 1) / n) columns
+    {
+        let deg = degs.iter().map(|d| evald(d)).max().unwrap() - (n - e);
+        let cols = ctx.num_constraint_composition_columns();
+        if cols * n < deg + 1 || (cols > 1 && (cols - 1) * n >= deg + 1) {
+            o.fails.push(("exempt.columns".into(), format!("n={} e={} degrees {:?}: composition degree {} but {} columns", n, e, degs, deg, cols)));
+        }
+    }
+    o.out = format!(
+        "ok {} {} {} cols={}",
+        ctx.num_transition_exemptions(),
+        d.degree(),
+        d.exemptions().len(),
+        ctx.num_constraint_composition_columns()
+    );
     o
 }
 
@@ -883,10 +1125,20 @@ fn gen_f<F: Fld>(rng: &mut Rng, tier: Tier, emit: &mut dyn FnMut(String)) {
                 }
             }
         }
-        for d in &all {
+        for (di, d) in all.iter().enumerate() {
             let seed = rng.below(1 << 20);
             emit(format!("{} adivs {} {}", f, d.s(), n));
             emit(format!("{} bvals {} {} {}", f, d.s(), seed, n));
+            // structured values: all-zero, constant, alternating, single non-zero, word beyond the modulus, runs
+            if d.kind == 'q' || di % 16 == 0 {
+                let pat = PAT + (di as u128 + d.first as u128) % NPAT;
+                emit(format!("{} bvals {} {} {}", f, d.s(), pat, n));
+                if n <= 16 && d.kind == 'q' {
+                    for p in 0..NPAT {
+                        emit(format!("{} bvals {} {} {}", f, d.s(), PAT + p, n));
+                    }
+                }
+            }
             for x in off_domain_points::<F>(rng, n).into_iter().take(if n <= 16 { 9 } else { 2 }) {
                 emit(format!("{} adivx {} {} {}", f, d.s(), n, x));
                 emit(format!("{} bvalx {} {} {} {}", f, d.s(), seed, n, x));
@@ -926,7 +1178,126 @@ fn gen_f<F: Fld>(rng: &mut Rng, tier: Tier, emit: &mut dyn FnMut(String)) {
             }
         }
     }
-    // ---- prepare_assertions + grouping
+    // ---- prepare_assertions + grouping: structured lists
+    for &n in &lens {
+        let pool = all_valid(n, 0);
+        // every ordered pair (both orders are generated) in the same and in different columns
+        let full = if tier == Tier::Quick {
+            n == 8 && f == "f64"
+        } else {
+            n <= 16 || (n == 32 && f == "f64")
+        };
+        let wcol = |d: &Desc, c: usize| Desc { col: c, ..*d };
+        if full {
+            for a in &pool {
+                for b in &pool {
+                    emit(format!("{} prep {} 2 {} {}", f, n, a.s(), b.s()));
+                    emit(format!("{} prep {} 2 {} {}", f, n, a.s(), wcol(b, 1).s()));
+                    emit(format!("{} prep {} 2 {} {}", f, n, wcol(a, 1).s(), b.s()));
+                }
+            }
+        } else {
+            let cnt = if tier == Tier::Thorough { 3000 } else if n == 8 { 800 } else if n == 16 { 1200 } else { 400 };
+            for _ in 0..cnt {
+                let (a, b) = (*rng.pick(&pool), *rng.pick(&pool));
+                let (ca, cb) = *rng.pick(&[(0usize, 0usize), (0, 1), (1, 0)]);
+                emit(format!("{} prep {} 2 {} {}", f, n, wcol(&a, ca).s(), wcol(&b, cb).s()));
+            }
+        }
+        // triples in all six orders: two disjoint assertions and a third one that overlaps exactly one
+        // of them / none of them / is a duplicate; same key in three columns; equal strides; nested progressions
+        let perms: [[usize; 3]; 6] = [[0, 1, 2], [0, 2, 1], [1, 0, 2], [1, 2, 0], [2, 0, 1], [2, 1, 0]];
+        let ntr = if tier == Tier::Quick { 60 } else { 600 };
+        let mut made = 0;
+        let mut tries = 0;
+        while made < ntr && tries < 100 * ntr {
+            tries += 1;
+            let a = *rng.pick(&pool);
+            let b = *rng.pick(&pool);
+            if oracle_overlap(&a, &b, n) != Some(false) {
+                continue;
+            }
+            let c = match rng.below(4) {
+                0 => a,                                     // duplicate of one member
+                1 => wcol(&a, 1),                           // same key, other column
+                _ => *rng.pick(&pool),
+            };
+            let kind = (oracle_overlap(&a, &c, n) == Some(true)) as u8 + 2 * (oracle_overlap(&b, &c, n) == Some(true)) as u8;
+            if rng.below(4) != 0 && kind == 3 {
+                continue; // prefer "overlaps exactly one" and "overlaps none"
+            }
+            made += 1;
+            let tr = [a, b, c];
+            for pm in &perms {
+                emit(format!("{} prep {} 2 {} {} {}", f, n, tr[pm[0]].s(), tr[pm[1]].s(), tr[pm[2]].s()));
+            }
+        }
+        // the same shape on every column of a wider trace, columns in descending and mixed order
+        let mut stride = 2;
+        while stride <= n {
+            for first in [0, 1, stride - 1] {
+                if first >= stride {
+                    continue;
+                }
+                let p = Desc { kind: 'p', col: 0, first, stride, count: 1 };
+                let q = Desc { kind: 'q', col: 0, first, stride, count: n / stride };
+                let mut v = vec![wcol(&p, 3), wcol(&p, 0), wcol(&p, 2)];
+                if stride < n {
+                    v.push(wcol(&q, 1));
+                    v.push(wcol(&q, 4));
+                    // sequences with different numbers of values in one list (twiddle cache)
+                    let q2 = Desc { kind: 'q', col: 5, first: 0, stride: 2 * stride, count: n / (2 * stride) };
+                    if q2.count >= 2 {
+                        v.push(q2);
+                    }
+                    let q3 = Desc { kind: 'q', col: 6, first: 1, stride: 2, count: n / 2 };
+                    v.push(q3);
+                }
+                emit(format!("{} prep {} 7 {}", f, n, v.iter().map(|d| d.s()).collect::<Vec<_>>().join(" ")));
+                v.reverse();
+                emit(format!("{} prep {} 7 {}", f, n, v.iter().map(|d| d.s()).collect::<Vec<_>>().join(" ")));
+            }
+            stride *= 2;
+        }
+        // singles and one-value sequences with the same key
+        emit(format!("{} prep {} 3 s:0:5:0:1 q:1:5:8:1 s:2:5:0:1", f, n));
+        emit(format!("{} prep {} 3 q:1:5:8:1 s:1:5:0:1", f, n));
+        // declared number of assertions / number of coefficients differ from the list
+        for (decl, nc) in [(2usize, 2usize), (1, 2), (3, 2), (2, 1), (2, 3), (0, 2)] {
+            emit(format!("{} prepc {} 2 {} {} s:0:1:0:1 p:1:0:2:1", f, n, decl, nc));
+        }
+        // auxiliary segment: its own width, assertions after the main ones
+        for (mw, aw) in [(1usize, 1usize), (3, 1), (1, 3), (2, 2)] {
+            for ac in 0..=aw {
+                emit(format!("{} prepa {} {} {} 2 s:0:0:0:1 p:{}:1:2:1 q:{}:1:2:{} p:{}:0:4:1", f, n, mw, aw, mw - 1, ac, n / 2, aw.saturating_sub(1)));
+                emit(format!("{} prepa {} {} {} 1 q:{}:0:4:{} s:{}:0:0:1 p:{}:3:4:1", f, n, mw, aw, mw - 1, n / 4, ac, ac));
+            }
+        }
+        emit(format!("{} prepa {} 2 0 2 s:0:1:0:1 p:1:1:2:1", f, n));
+        emit(format!("{} prepa {} 2 0 1 s:0:1:0:1 p:0:1:2:1", f, n));
+        emit(format!("{} prepa {} 2 2 2 s:0:1:0:1 p:1:1:2:1", f, n));
+    }
+    // long traces through the same entry points (lengths beyond 2^8 and 2^16)
+    for n in [512usize, 1 << 16, 1 << 17] {
+        for d in [
+            Desc { kind: 's', col: 0, first: n - 1, stride: 0, count: 1 },
+            Desc { kind: 'p', col: 0, first: 1, stride: n / 2, count: 1 },
+            Desc { kind: 'q', col: 0, first: 3, stride: n / 2, count: 2 },
+            Desc { kind: 'q', col: 0, first: 5, stride: n / 8, count: 8 },
+            Desc { kind: 'p', col: 0, first: n - 1, stride: n, count: 1 },
+            Desc { kind: 'q', col: 0, first: n / 2 - 1, stride: n / 2, count: 2 },
+            Desc { kind: 'p', col: 0, first: n / 4 + 1, stride: n / 2, count: 1 },
+        ] {
+            let g = F::get_root_of_unity(n.ilog2()).canon();
+            for x in [3u128, powmod(g, d.first as u128, m), powmod(g, (d.first + d.stride) as u128, m)] {
+                emit(format!("{} adivx {} {} {}", f, d.s(), n, x));
+                emit(format!("{} bvalx {} 9 {} {}", f, d.s(), n, x));
+            }
+        }
+        emit(format!("{} prep {} 2 s:0:{}:0:1 p:1:1:{}:1 q:0:3:{}:4 q:1:3:{}:4", f, n, n - 1, n / 2, n / 4, n / 4));
+        emit(format!("{} prep {} 2 q:0:3:{}:4 s:0:{}:0:1", f, n, n / 4, 3 + n / 2));
+    }
+    // ---- prepare_assertions + grouping: random lists
     let nprep = if tier == Tier::Quick { 150 } else { 1500 };
     for &n in &lens {
         let pool: Vec<Desc> = all_valid(n, 0);
@@ -974,6 +1345,12 @@ fn gen_common(rng: &mut Rng, tier: Tier, emit: &mut dyn FnMut(String)) {
         for col in [0usize, 2] {
             for d in all_valid(n, col) {
                 emit(format!("mk {} {} {}", d.s(), n, 3));
+                if d.first <= 1 {
+                    // column vs trace width on both sides of the bound
+                    for w in [col.saturating_sub(1), col, col + 1, col + 2] {
+                        emit(format!("mk {} {} {}", d.s(), n, w));
+                    }
+                }
                 // the same assertion against other trace lengths / widths
                 if d.first % 5 == 0 {
                     for n2 in [n / 2, 2 * n, n + 1, 0, 3 * n] {
@@ -1032,7 +1409,10 @@ fn gen_common(rng: &mut Rng, tier: Tier, emit: &mut dyn FnMut(String)) {
         }
     }
     // ---- exemption bounds
-    let degsets: [&[&str]; 14] = [
+    let degsets: [&[&str]; 17] = [
+        &["3", "2"],
+        &["5", "1", "2"],
+        &["2:8:4"],
         &["1"],
         &["2"],
         &["3"],
@@ -1048,6 +1428,16 @@ fn gen_common(rng: &mut Rng, tier: Tier, emit: &mut dyn FnMut(String)) {
         &["2:4:8"],
         &["1:2:2:2:2"],
     ];
+    for n in [512usize, 1 << 16] {
+        for e in [0usize, 1, 2, 3, n / 2, n / 2 + 1, n / 2 + 2] {
+            for ds in [["1"], ["2"], ["3"]] {
+                // building 2^15 exemption points is slow in the model: one degree set for the large counts
+                if n == 512 || e <= 3 || ds == ["2"] {
+                    emit(format!("exempt {} {} 8 {}", n, e, ds.join(" ")));
+                }
+            }
+        }
+    }
     for &n in &lens {
         let mut es: Vec<usize> = (0..=n / 2 + 3).collect();
         es.extend([n - 1, n, n + 1, 2 * n]);
@@ -1069,19 +1459,32 @@ impl Prop for P {
         "C16"
     }
     fn gen(&self, rng: &mut Rng, tier: Tier, _n: usize, emit: &mut dyn FnMut(String)) {
-        gen_common(rng, tier, emit);
-        gen_f::<f64::BaseElement>(rng, tier, emit);
-        gen_f::<f62::BaseElement>(rng, tier, emit);
-        gen_f::<f128::BaseElement>(rng, tier, emit);
+        // the lines are generated by section and then shuffled (seeded), so that the contiguous chunks
+        // the workers and the model driver take are equally expensive
+        let mut lines: Vec<String> = vec![];
+        {
+            let mut push = |l: String| lines.push(l);
+            gen_common(rng, tier, &mut push);
+            gen_f::<f64::BaseElement>(rng, tier, &mut push);
+            gen_f::<f62::BaseElement>(rng, tier, &mut push);
+            gen_f::<f128::BaseElement>(rng, tier, &mut push);
+        }
+        for i in (1..lines.len()).rev() {
+            let j = rng.below(i as u64 + 1) as usize;
+            lines.swap(i, j);
+        }
+        for l in lines {
+            emit(l);
+        }
     }
     fn exec(&self, line: &str) -> Outcome {
         let t: Vec<&str> = line.split(' ').collect();
-        fn field_op<F: Fld>(t: &[&str]) -> Outcome {
+        fn field_op<F: AFld>(t: &[&str]) -> Outcome {
             match t[0] {
                 "tdivx" | "tdivs" => exec_tdiv::<F>(t),
                 "adivx" | "adivs" => exec_adiv::<F>(t),
                 "bvalx" | "bvals" => exec_bval::<F>(t),
-                "prep" => exec_prep::<F>(t),
+                "prep" | "prepc" | "prepa" => exec_prep::<F>(t),
                 _ => Outcome::ok("bad-op"),
             }
         }
